@@ -49,6 +49,9 @@ META = {
     "C15": {"technique": "property-based testing: tag-tree generators + reference semantics of the four tags over logged consumer inputs and the result",
             "level_text": "Generated-input search over placements of the four tags with all source outcomes and completion orders; the reference gives each tag its declared meaning and the plugin log supplies what consumers really received and when.",
             "level_note": TB + "; the soft-optional motif uses a gate with a 1.5 s timeout, so a blocking implementation is reported, not hung"},
+    "C14": {"technique": "model-based property testing over histories of runs of one prepared workflow (sequential and overlapping), reference per run",
+            "level_text": "Generated histories of sequential and overlapping runs (incl. cancelled and failing ones, a twin, re-preparation) of one prepared workflow; each run is judged against the reference for an isolated run with its input, its log slice against the dataflow oracle, and the prepared graph must stay unchanged.",
+            "level_note": TB + "; overlap is real concurrency inside one worker process, not a controlled interleaving"},
 }
 
 NOT_APPLICABLE = []
